@@ -799,6 +799,10 @@ func (c *Ctx) orderFramesRule(e *Eff) int {
 			}
 			l := innermostLoopOf(loops, get.site.Block())
 			if l == nil {
+				if why := c.drivenFromOutside(fn); why != "" {
+					c.add("ORDER-FRAMES", fn, construct, report.OutOfScope, c.P.Pos(get.site.Pos()), "GetFrame sits in a fetch step that "+why+": the iteration protocol (cursor object / iterator) is not decided")
+					continue
+				}
 				fail("GetFrame is not inside a loop: only one frame can be processed")
 				continue
 			}
@@ -824,6 +828,25 @@ func (c *Ctx) orderFramesRule(e *Eff) int {
 				}
 				if _, ok := v.(*ssa.BinOp); ok {
 					arith = true
+				}
+			}
+			if !boundOK && !arith {
+				// a bound that arrives from outside this function (captured by an iterator closure, a
+				// parameter, a field) is not followed: undecided, not refuted
+				opaque := false
+				for v := range backwardSlice(bound, 200) {
+					switch y := v.(type) {
+					case *ssa.FreeVar, *ssa.Parameter:
+						opaque = true
+					case *ssa.UnOp:
+						if y.Op == token.MUL {
+							opaque = true
+						}
+					}
+				}
+				if opaque {
+					c.add("ORDER-FRAMES", fn, construct, report.OutOfScope, c.P.Pos(get.site.Pos()), "the loop bound arrives from outside the function (captured variable, parameter or field): whether it is FrameCount() is not decided")
+					continue
 				}
 			}
 			if !boundOK || arith {
@@ -906,6 +929,16 @@ func (c *Ctx) orderFramesRule(e *Eff) int {
 		}
 		for _, ad := range adds[fn] {
 			if !usedAdds[ad.site] && !viaCallback[ad.site] {
+				if len(gets[fn]) == 0 {
+					why := c.drivenFromOutside(fn)
+					if why == "" && innermostLoopOf(loops, ad.site.Block()) != nil {
+						why = "appends inside a loop of its own whose frames come from a fetch step"
+					}
+					if why != "" {
+						c.add("ORDER-FRAMES", fn, "AddFrame fed by a fetch step", report.OutOfScope, c.P.Pos(ad.site.Pos()), "this function fetches no frame itself and "+why+": the pairing with GetFrame (cursor object / iterator) is not decided")
+						continue
+					}
+				}
 				c.add("ORDER-FRAMES", fn, "AddFrame outside a frame loop", report.Violated, c.P.Pos(ad.site.Pos()), "AddFrame is not paired with a GetFrame of the same iteration")
 			}
 		}
@@ -952,4 +985,23 @@ func (c *Ctx) controlCount(rule string) int {
 		}
 	}
 	return n
+}
+
+// drivenFromOutside: fn is a step of somebody else's loop — called from inside a loop of a caller,
+// or used as a function value (iterator body, per-frame callback, method value).
+func (c *Ctx) drivenFromOutside(fn *ssa.Function) string {
+	if fn.Parent() != nil || c.P.UsedAsValue(fn) {
+		return "is a closure / function value driven by its user"
+	}
+	if n := c.P.CG.Nodes[fn]; n != nil {
+		for _, e := range n.In {
+			if e.Site == nil || e.Caller == nil || e.Caller.Func == nil || e.Caller.Func.Blocks == nil {
+				continue
+			}
+			if innermostLoopOf(naturalLoops(e.Caller.Func), e.Site.Block()) != nil {
+				return "is called from a loop in " + load.FuncName(e.Caller.Func)
+			}
+		}
+	}
+	return ""
 }
